@@ -222,6 +222,14 @@ func c14Pathological() []*load.Case {
 	add("identity-cycle", hdr("a")+"identity i { base j; } identity j { base i; } leaf l { type identityref { base i; } } }", nil)
 	add("leafref-self", hdr("a")+"leaf l { type leafref { path \"../l\"; } } }", nil)
 	add("leafref-cycle", hdr("a")+"leaf l { type leafref { path \"../m\"; } } leaf m { type leafref { path \"../l\"; } } }", nil)
+	// a third party pointing into a cycle that is harmless on its own
+	add("leafref-into-self", hdr("a")+"leaf l { type leafref { path \"../l\"; } } leaf o { type leafref { path \"../l\"; } } leaf-list p { type leafref { path \"../o\"; } } }", nil)
+	add("leafref-into-cycle", hdr("a")+"leaf l { type leafref { path \"../m\"; } } leaf m { type leafref { path \"../l\"; } } leaf o { type leafref { path \"../m\"; } } container c { leaf q { type leafref { path \"../../o\"; } } } }", nil)
+	add("leafref-chain-into-cycle-before", hdr("a")+"leaf o { type leafref { path \"../l\"; } } leaf l { type leafref { path \"../m\"; } } leaf m { type leafref { path \"../l\"; } } }", nil)
+	add("typedef-into-cycle", hdr("a")+"typedef t { type u; } typedef u { type t; } typedef v { type t; } leaf l { type v; } leaf m { type union { type v; type string; } } }", nil)
+	add("identity-into-cycle", hdr("a")+"identity i { base j; } identity j { base i; } identity k { base i; } leaf l { type identityref { base k; } } }", nil)
+	add("grouping-into-cycle", hdr("a")+"grouping g { container c { uses h; } } grouping h { container d { uses g; } } grouping k { uses g; } container top { uses k; } }", nil)
+	add("feature-into-cycle", hdr("a")+"feature f { if-feature g; } feature g { if-feature f; } feature h { if-feature f; } leaf l { if-feature h; type string; } }", nil)
 	add("union-of-self-typedef", hdr("a")+"typedef t { type union { type t; type string; } } leaf l { type t; } }", nil)
 	add("augment-self", hdr("a")+"container c { } augment /c { container c { } } augment /c/c { uses g; } grouping g { leaf z { type string; } } }", nil)
 	add("augment-missing-target", hdr("a")+"augment /nope { leaf z { type string; } } }", nil)
